@@ -232,11 +232,13 @@ func runSCIONServer(ctx context.Context, log *slog.Logger, mtrcs *scionServerMet
 
 		srcAddr, ok := netip.AddrFromSlice(scionLayer.RawSrcAddr)
 		if !ok {
-			panic("unexpected IP address byte slice")
+			log.LogAttrs(ctx, slog.LevelInfo, "failed to decode packet", slog.String("cause", "unexpected source address type"))
+			continue
 		}
 		dstAddr, ok := netip.AddrFromSlice(scionLayer.RawDstAddr)
 		if !ok {
-			panic("unexpected IP address byte slice")
+			log.LogAttrs(ctx, slog.LevelInfo, "failed to decode packet", slog.String("cause", "unexpected destination address type"))
+			continue
 		}
 
 		if int(udpLayer.DstPort) != localHostPort {
